@@ -6,15 +6,34 @@ from _common import verdict
 from mako.lexer import Lexer
 from mako import exceptions
 
-times = []
-for n in (14, 16, 18, 20):
+
+def lex_time(n):
     s = "<%a" + " =" * n + "X"
-    t = time.perf_counter()
-    try:
-        Lexer(s).parse()
-    except exceptions.MakoException:
-        pass
-    times.append(time.perf_counter() - t)
-print("lexing times for n = 14, 16, 18, 20:", [round(x, 4) for x in times])
-ratios = [b / a for a, b in zip(times, times[1:]) if a > 2e-3]
-verdict("lexing time multiplies by %.1f for every two extra repetitions" % min(ratios[-2:]) if len(ratios) >= 2 and min(ratios[-2:]) > 2.5 else None)
+    best = None
+    for _ in range(2):              # the better of two runs: robust against a busy machine
+        t = time.perf_counter()
+        try:
+            Lexer(s).parse()
+        except exceptions.MakoException:
+            pass
+        d = time.perf_counter() - t
+        best = d if best is None else min(best, d)
+    return best
+
+
+times = []
+for n in range(10, 40):
+    times.append((n, lex_time(n)))
+    if times[-1][1] > 1.5:
+        break
+print("lexing times:", [(n, round(x, 4)) for n, x in times])
+# between the first run above 20 ms and the last one the time must have at least doubled every two extra repetitions
+big = [(n, x) for n, x in times if x > 0.02]
+bad = None
+if len(big) >= 4:
+    (n0, t0), (n1, t1) = big[0], big[-1]
+    per_step = (t1 / t0) ** (1.0 / (n1 - n0))
+    print("average factor per extra repetition: %.2f" % per_step)
+    if per_step > 1.4:
+        bad = "lexing time multiplies by %.1f for every extra repetition of ' ='" % per_step
+verdict(bad)
